@@ -13,6 +13,8 @@ import (
 // ---------------- AST ----------------
 
 type TypeExpr struct {
+	Params  []*TypeExpr // func
+	Results []*TypeExpr // func
 	Kind string // name, ptr, slice, map, set, func, iface
 	Pkg  string
 	Name string
@@ -164,6 +166,7 @@ type Contract struct {
 	Requires []*Clause
 	Ensures  []*Clause
 	Maintains []string // global invariants re-established on exit
+	PureFns  []string  // function-typed parameters whose calls are pure and deterministic (T6)
 	Defines  *Expr     // result of this pure, deterministic function is denoted by this spec application
 	MayPanic []*Clause // E may be nil (unconditional)
 	Assigns  []string
@@ -422,6 +425,46 @@ func (l *lexer) parseType() (*TypeExpr, error) {
 			return nil, err
 		}
 		return &TypeExpr{Kind: "map", Key: k, Elem: e}, nil
+	case t.k == "id" && t.s == "func" && l.peekN(1).s == "(":
+		l.next()
+		l.next()
+		fe := &TypeExpr{Kind: "func"}
+		for !l.isOp(")") {
+			pt, err := l.parseType()
+			if err != nil {
+				return nil, err
+			}
+			fe.Params = append(fe.Params, pt)
+			if !l.accept(",") {
+				break
+			}
+		}
+		if err := l.expect(")"); err != nil {
+			return nil, err
+		}
+		if l.isOp("(") {
+			l.next()
+			for !l.isOp(")") {
+				rt, err := l.parseType()
+				if err != nil {
+					return nil, err
+				}
+				fe.Results = append(fe.Results, rt)
+				if !l.accept(",") {
+					break
+				}
+			}
+			if err := l.expect(")"); err != nil {
+				return nil, err
+			}
+		} else if tk := l.peek(); tk.k == "id" || tk.s == "*" || tk.s == "[" {
+			rt, err := l.parseType()
+			if err != nil {
+				return nil, err
+			}
+			fe.Results = append(fe.Results, rt)
+		}
+		return fe, nil
 	case t.k == "id":
 		l.next()
 		if t.s == "interface" && l.isOp("{") {
@@ -918,7 +961,7 @@ var clauseKeywords = map[string]bool{
 	"maypanic": true, "assigns": true, "loop": true, "inline": true, "trusted": true,
 	"pure": true, "type": true, "spec": true, "unfold": true, "axiom": true, "extern": true,
 	"iface": true, "lemma": true, "let": true, "assert": true, "assume": true, "level": true,
-	"package": true, "nobody": true, "call": true, "defines": true, "global": true, "maintains": true,
+	"package": true, "nobody": true, "call": true, "defines": true, "global": true, "maintains": true, "purefn": true,
 }
 
 type rawClause struct {
@@ -1083,6 +1126,8 @@ func ParseSpecText(text, path string, goFile bool) (*SpecFile, error) {
 			}
 		case "maintains":
 			cur.Maintains = append(cur.Maintains, strings.Fields(rc.text)...)
+		case "purefn":
+			cur.PureFns = append(cur.PureFns, strings.Fields(rc.text)...)
 		case "global":
 			// global invariant NAME: E
 			txt := strings.TrimSpace(strings.TrimPrefix(strings.TrimSpace(rc.text), "invariant"))
